@@ -60,7 +60,7 @@ Proof. exact (fun nm f W => conj (load_ids_iff nm f W) (file_lists_iff nm f W)).
 Print Assumptions C19_load_list.
 
 (* "the lines of the file" ([split_lf], used by Lists) are the pieces between line feeds *)
-Theorem C19_lines : forall f, join_lf (split_lf f) = f /\ Forall (fun l => ~ In 10 l) (split_lf f).
+Theorem C19_lines : forall f, join_lf (split_lf f) = f /\ Forall (fun l => ~ In 10%N l) (split_lf f).
 Proof. exact (fun f => conj (split_lf_join f) (split_lf_no_lf f)). Qed.
 Print Assumptions C19_lines.
 
@@ -89,11 +89,11 @@ Proof. vm_compute. repeat split. Qed.
 (* non-vacuity of the list-file clause: ids "a", "a b", "b"; the file " a b \r\n\nb" (no final
    newline) lists "a b" and "b" but not "a" *)
 Example C19_example_load_list :
-  let nms := [[97]; [97; 32; 98]; [98]] in
-  let f := [32; 97; 32; 98; 32; 13; 10; 10; 98] in
+  let nms := [[97]; [97; 32; 98]; [98]]%N in
+  let f := [32; 97; 32; 98; 32; 13; 10; 10; 98]%N in
   let t := Plain [Case 0; Custom false true [Case 1; Case 2]] in
   forallb wf_nameb nms = true
-  /\ load_ids f = [[97; 32; 98]; []; [98]]
+  /\ load_ids f = [[97; 32; 98]; []; [98]]%N
   /\ cli_run (cli_load nms f t) = [1; 2]
   /\ filter (listedb nms f) (leaves t) = [1; 2].
 Proof. vm_compute. repeat split. Qed.
